@@ -57,6 +57,8 @@ pub struct Hist<'a> {
     pub dead: bool,
     /// last block freed successfully (for double-free letters)
     pub last_freed: Option<(usize, usize)>,
+    /// focused histories: most calls use this (class, slot); targeted gets aim into its reserved tree
+    pub focus: Option<(u8, usize)>,
 }
 
 impl<'a> Hist<'a> {
@@ -84,11 +86,12 @@ impl<'a> Hist<'a> {
             ncalls: 0,
             dead: false,
             last_freed: None,
+            focus: None,
         }
     }
     /// continue with an already constructed (wrapped) allocator
     pub fn adopt(out: &'a mut Out, w: World, seed: u64) -> Self {
-        Hist { w, held: vec![], rng: Rng(seed), out, twin: None, twin_age: 0, ncalls: 0, dead: false, last_freed: None }
+        Hist { w, held: vec![], rng: Rng(seed), out, twin: None, twin_age: 0, ncalls: 0, dead: false, last_freed: None, focus: None }
     }
     fn wrapped(&self) -> bool {
         self.w.zone.is_some() || self.w.nvm.is_some()
@@ -131,20 +134,31 @@ impl<'a> Hist<'a> {
     pub fn gen_op(&mut self) -> Op {
         let frames = self.w.frames.max(1);
         let r = self.rng.below(100);
-        let class = self.rand_class();
-        let slot = self.rand_slot(class);
+        let mut class = self.rand_class();
+        let mut slot = self.rand_slot(class);
+        let mut focus_tree = None;
+        if let Some((fc, fs)) = self.focus {
+            if self.rng.chance(80) {
+                class = fc;
+                slot = Some(fs);
+            }
+            if let Some(a) = self.w.alloc.as_ref() {
+                focus_tree = a.verif_local(llfree::Class(fc), fs).map(|(row, _)| row * 64 / TF);
+            }
+        }
         match r {
             0..=29 => Op::Get(self.rand_order(), class, slot, None),
             30..=41 => {
                 // targeted allocation
                 let o = self.rand_order();
                 let kind = self.rng.below(4);
-                let f = match kind {
-                    0 if !self.held.is_empty() => {
+                let f = match (kind, focus_tree) {
+                    (_, Some(t)) if self.rng.chance(60) => (t * TF + self.rng.below(TF)).min(frames - 1),
+                    (0, _) if !self.held.is_empty() => {
                         let (f, _) = *self.rng.pick(&self.held.clone());
                         f
                     }
-                    1 => frames - 1,
+                    (1, _) => frames - 1,
                     _ => self.rng.below(frames),
                 };
                 let f = (f >> o) << o;
@@ -444,6 +458,14 @@ pub fn random_runs(out: &mut Out, seed: u64, runs: usize, len: usize, twins: boo
         let init = if rng.chance(65) { "free" } else { "alloc" };
         let run = format!("rand:{seed}:{r}:{frames}:{init}:{cls}:{k}");
         let mut h = Hist::start(out, &run, frames, init, cls, k, seed.wrapping_mul(1000) + r as u64, false);
+        if r % 2 == 1 {
+            // focused history: stay on one class and slot
+            let cands: Vec<(u8, usize)> = h.w.classes.iter().filter(|c| c.1 > 0).map(|c| (c.0, c.1)).collect();
+            if !cands.is_empty() {
+                let (c, n) = cands[rng.below(cands.len())];
+                h.focus = Some((c, rng.below(n)));
+            }
+        }
         h.random(len, twins);
     }
 }
